@@ -46,6 +46,9 @@ def imap_date(d: dt.date) -> str:
 
 
 # ------------------------------------------------------------------ message generator
+LONG_SUBJECTS = False   # thorough tier: subjects the email package folds at 78 columns
+
+
 def gen_message(rng, idx):
     """-> (raw bytes, meta) ; meta['words'] are byte strings that occur somewhere in the message"""
     nl = rng.choice(["\r\n", "\n"])
@@ -66,7 +69,8 @@ def gen_message(rng, idx):
         h.append(("Bcc", rng.choice(ADDRS)))
     r = rng.random()
     if r < 0.75:
-        subj = " ".join(w() for _ in range(rng.choice([1, 2, 3]))) + f" tok{idx}"
+        nw = rng.choice([1, 2, 3, 14, 25] if LONG_SUBJECTS else [1, 2, 3])
+        subj = " ".join(w() for _ in range(nw)) + f" tok{idx}"
         h.append((rng.choice(["Subject", "SUBJECT", "subject"]), subj))
     elif r < 0.9:
         h.append(("Subject", w() + nl + " " + w() + " folded"))
@@ -123,7 +127,10 @@ def gen_setup(rng, n):
         ops.append({"s": "A", "cmd": f"x STORE {k} +FLAGS.SILENT (\\Deleted)"})
         ops.append({"s": "A", "cmd": f"x UID EXPUNGE {k}"})   # fresh mailbox: UID k is message k
     if n and rng.random() < 0.25:
-        ops.append({"deliver": 1})
+        # an MH tool drops a message into the folder (it becomes \\Recent and unseen at the next resync)
+        raw, meta = gen_message(rng, total + 1)
+        metas.append(meta)
+        ops.append({"deliver": raw.decode("ascii")})
         ops.append({"s": "A", "cmd": "x NOOP"})
     for _ in range(rng.choice([0, 1, 2, 3]) if n else 0):
         a, b = sorted([rng.randint(1, n), rng.randint(1, n)])
@@ -144,7 +151,12 @@ def run_setup(ops):
     w.session("B")
     for op in ops:
         if "deliver" in op:
-            w.deliver("inbox", op["deliver"])
+            mh = w.folder("inbox")
+            key = int(mh.add(op["deliver"].encode("ascii")))
+            seqs = mh.get_sequences()
+            seqs["unseen"] = sorted(set(seqs.get("unseen", [])) | {key})
+            mh.set_sequences(seqs)
+            w.bump_mtime("inbox")
             w.settle(0.0)
         else:
             out = w.cmd(op["s"], op["cmd"])
@@ -230,7 +242,7 @@ def parse_headers(raw: bytes):
         elif b":" in ln:
             k, v = ln.split(b":", 1)
             fields.append([k, v])
-    return [(k, v.strip(b" \t")) for k, v in fields]
+    return [(k, v.lstrip(b" \t")) for k, v in fields]
 
 
 def header_date_day(fields):
@@ -340,7 +352,9 @@ def gen_leaf(rng, msgs, metas, stats):
         f = rng.choice(HDR1)
         k = ("hdr1", f, needle(rng, msgs, metas, f))
     elif kind == "header":
-        f = rng.choice(["subject", "x-tag", "received", "date", "from", "to", "cc", "content-type", "x-none"])
+        # not content-type: the email package re-renders structured MIME headers (boundary=zz -> boundary="zz"),
+        # which is outside the model (see trusted base)
+        f = rng.choice(["subject", "x-tag", "received", "date", "from", "to", "cc", "mime-version", "x-none"])
         k = ("header", flip(rng, f), needle(rng, msgs, metas, f))
     elif kind == "body":
         k = ("body", needle(rng, msgs, metas, "body"))
@@ -374,7 +388,7 @@ def gen_leaf(rng, msgs, metas, stats):
 
 
 def gen_key(rng, msgs, metas, depth, stats):
-    if depth <= 1 or rng.random() < 0.35:
+    if depth <= 1 or rng.random() < 0.2:
         return gen_leaf(rng, msgs, metas, stats)
     c = rng.choice(["not", "or", "paren", "not", "or"])
     stats[c] = stats.get(c, 0) + 1
@@ -392,6 +406,16 @@ def key_depth(k):
         return 1 + max(key_depth(k[1]), key_depth(k[2]))
     if k[0] == "paren":
         return 1 + max([key_depth(x) for x in k[1]] + [0])
+    return 1
+
+
+def key_size(k):
+    if k[0] == "not":
+        return 1 + key_size(k[1])
+    if k[0] == "or":
+        return 1 + key_size(k[1]) + key_size(k[2])
+    if k[0] == "paren":
+        return 1 + sum(key_size(x) for x in k[1])
     return 1
 
 
@@ -610,6 +634,14 @@ def jsonable_msgs(msgs):
              "sent_day": m["sent"], "body[]": m["text"].decode("latin-1")} for m in msgs]
 
 
+def viol(ctx, what, replay):
+    """at most three replays per kind of violation, so that one defect does not hide the others"""
+    seen = ctx.extra.setdefault("violations_by_kind", {})
+    seen[what] = seen.get(what, 0) + 1
+    if seen[what] <= 3:
+        ctx.violation(what, replay)
+
+
 def explore(ctx, sizes, nprog):
     rng = ctx.rng
     mailboxes, setups, cases, texts = [], [], [], []
@@ -631,11 +663,14 @@ def explore(ctx, sizes, nprog):
             allpos = list(range(1, len(msgs) + 1))
             uids = [m["uid"] for m in msgs]
 
+            last = {}
+
             def ask(keys, uid, sess=None, record=True):
                 text = " ".join(render_key(rng, k, forms) for k in keys)
+                last["text"] = ("UID " if uid else "") + "SEARCH " + text
                 st, val = do_search(w, sess or rng.choice(["A", "B"]), text, uid)
                 if st != "ok":
-                    ctx.violation("a search program of the RFC 3501 grammar was not answered with its result",
+                    viol(ctx, "a search program of the RFC 3501 grammar was not answered with its result",
                                   {"setup": ops, "mailbox": jsonable_msgs(msgs),
                                    "search": ("UID " if uid else "") + "SEARCH " + text, "reply": val,
                                    "status": st})
@@ -661,25 +696,35 @@ def explore(ctx, sizes, nprog):
                         for o in ("sentbefore", "senton", "sentsince")]
                      + [[("size", o, (msgs[-1]["size"] if msgs else 10))] for o in ("larger", "smaller")]
                      + [[("set", gen_set(rng, len(msgs), []))], [("uid", gen_set(rng, uids[-1] if uids else 1, uids[:]))],
-                        [("all",)]])
+                        [("set", ["*"])], [("set", [("*", 1)])], [("set", [(max(1, len(msgs) - 1), "*")])],
+                        [("uid", ["*"])], [("uid", [(uids[-1] if uids else 1, "*")])], [("uid", [("*", 1)])],
+                        [("uid", [len(msgs) + 1])], [("all",)]])
             for keys in sweep:
                 for k in keys:
                     kk = k[0] if k[0] not in ("flag", "date", "size") else k[1]
                     stats[kk] = stats.get(kk, 0) + 1
                 ask(keys, rng.random() < 0.3)
             for _ in range(nprog):
-                keys = [gen_key(rng, msgs, metas, rng.choice([1, 2, 3, 4]), stats)
+                keys = [gen_key(rng, msgs, metas, rng.choice([1, 2, 3, 3, 4, 4]), stats)
                         for _ in range(rng.choice([1, 1, 2, 3]))]
                 ask(keys, rng.random() < 0.4)
 
             # ---- metamorphic laws on the implementation itself
-            def law(name, lhs, rhs, detail):
+            def law(name, lkeys, luid, rhs, detail):
+                """rhs: a list (computed from other answers) or (keys, uid) for a second search"""
                 meta_n[name] += 1
+                lhs = ask(lkeys, luid, record=False)
+                ltext = last["text"]
+                rtext = None
+                if isinstance(rhs, tuple):
+                    rhs = ask(rhs[0], rhs[1], record=False)
+                    rtext = last["text"]
                 if lhs is None or rhs is None:
                     return
                 if lhs != rhs:
-                    ctx.violation(f"the implementation breaks a law of the search algebra: {name}",
-                                  dict(detail, setup=ops, mailbox=jsonable_msgs(msgs), left=lhs, right=rhs))
+                    viol(ctx, f"the implementation breaks a law of the search algebra: {name}",
+                         dict(detail, setup=ops, mailbox=jsonable_msgs(msgs), left_search=ltext, left=lhs,
+                              right_search=rtext, right=rhs, replay="./check C14 --replay <this file>"))
 
             for _ in range(max(3, nprog // 6)):
                 k1 = gen_key(rng, msgs, metas, rng.choice([1, 2, 3]), {})
@@ -689,22 +734,20 @@ def explore(ctx, sizes, nprog):
                 if r1 is None or r2 is None:
                     continue
                 d = {"k1": render_key(rng, k1, {}), "k2": render_key(rng, k2, {})}
-                law("not_not", ask([("not", ("not", k1))], False, record=False), r1, d)
-                law("or_comm", ask([("or", k1, k2)], False, record=False),
-                    ask([("or", k2, k1)], False, record=False), d)
-                law("and_inter", ask([k1, k2], False, record=False), sorted(set(r1) & set(r2)), d)
-                law("not_complement", ask([("not", k1)], False, record=False), sorted(set(allpos) - set(r1)), d)
-                law("or_union", ask([("or", k1, k2)], False, record=False), sorted(set(r1) | set(r2)), d)
-                law("paren", ask([("paren", [k1, k2])], False, record=False), sorted(set(r1) & set(r2)), d)
-                law("uid_map", ask([k1], True, record=False), [uids[i - 1] for i in r1], d)
+                law("not_not", [("not", ("not", k1))], False, r1, d)
+                law("or_comm", [("or", k1, k2)], False, ([("or", k2, k1)], False), d)
+                law("and_inter", [k1, k2], False, sorted(set(r1) & set(r2)), d)
+                law("not_complement", [("not", k1)], False, sorted(set(allpos) - set(r1)), d)
+                law("or_union", [("or", k1, k2)], False, sorted(set(r1) | set(r2)), d)
+                law("paren", [("paren", [k1, k2])], False, sorted(set(r1) & set(r2)), d)
+                law("uid_map", [k1], True, [uids[i - 1] for i in r1], d)
             for un, pos in (("new", None), ("old", "recent"), ("unanswered", "answered"), ("undeleted", "deleted"),
                             ("undraft", "draft"), ("unflagged", "flagged"), ("unseen", "seen")):
-                lhs = ask([("flag", un)], False, record=False)
                 if un == "new":
-                    rhs = ask([("flag", "recent"), ("flag", "unseen")], False, record=False)
+                    rhs = ([("flag", "recent"), ("flag", "unseen")], False)
                 else:
-                    rhs = ask([("not", ("flag", pos))], False, record=False)
-                law("new_old_un", lhs, rhs, {"key": un})
+                    rhs = ([("not", ("flag", pos))], False)
+                law("new_old_un", [("flag", un)], False, rhs, {"key": un})
 
             # ---- malformed programs: refused, never answered with matches
             for bad in ["FOO", "OR SEEN", "(SEEN", "LARGER x", "HEADER x", "KEYWORD", "NOT", "1:", "UID",
@@ -716,10 +759,10 @@ def explore(ctx, sizes, nprog):
                     st, val = "broken", repr(e)
                 stats["malformed"] = stats.get("malformed", 0) + 1
                 if st == "ok":
-                    ctx.violation("a malformed search program was answered with a result",
+                    viol(ctx, "a malformed search program was answered with a result",
                                   {"search": "SEARCH " + bad, "result": val})
                 elif st == "broken":
-                    ctx.violation("a malformed search program was not refused in an orderly way",
+                    viol(ctx, "a malformed search program was not refused in an orderly way",
                                   {"search": "SEARCH " + bad, "what": val})
 
             # ---- searching changed nothing that FETCH shows (e.g. \Recent is not consumed by SEARCH RECENT)
@@ -735,7 +778,8 @@ def explore(ctx, sizes, nprog):
 
     mbad, sbad = coq_check(ctx, "c14", mailboxes, cases)
     shown = 0
-    for i in sorted(set(mbad) | set(sbad)):
+    # smallest programs first: they point at the key that is evaluated wrongly
+    for i in sorted(set(mbad) | set(sbad), key=lambda j: (sum(key_size(k) for k in cases[j][1]), j)):
         if shown >= 5:
             break
         shown += 1
@@ -779,11 +823,13 @@ def run(ctx):
                             "non-empty subset of the mailbox")
     ok = ctx.prove("Properties/C14.v")
     if ctx.thorough:
+        global LONG_SUBJECTS
+        LONG_SUBJECTS = True
         sizes = [0, 1, 2, 3, 4, 5, 6, 7, 8] * 8 + [ctx.rng.randint(2, 8) for _ in range(48)]
         nprog = 60
     else:
         sizes = [0, 1, 2, 3, 4, 5, 6, 8]
-        nprog = 22
+        nprog = 30
     if not ok:
         ctx.extra["note"] = "proof closure does not build; the correspondence still runs if Model/SearchM.vo builds"
         try:
@@ -807,20 +853,27 @@ def run(ctx):
 
 def replay(ctx, path):
     r = json.load(open(path))
-    if "setup" not in r or "search" not in r:
+    if "setup" not in r or not (r.get("search") or r.get("left_search")):
         print(json.dumps(r, indent=1)[:4000])
         return 0
     w = run_setup(r["setup"])
     try:
-        uid = r["search"].startswith("UID ")
-        text = r["search"].split("SEARCH ", 1)[1]
-        st, val = do_search(w, "B", text, uid)
-        print(f"search   : {r['search']!r}")
-        print(f"observed : {st} {val}")
-        print(f"expected : {r.get('denotation', r.get('right'))}")
+        def again(cmd):
+            uid = cmd.startswith("UID ")
+            st, val = do_search(w, "B", cmd.split("SEARCH ", 1)[1], uid)
+            print(f"search   : {cmd!r}\nobserved : {st} {val}")
+            return val if st == "ok" else None
+
+        if r.get("left_search"):
+            left = again(r["left_search"])
+            right = again(r["right_search"]) if r.get("right_search") else r["right"]
+            print(f"law      : must equal {right}")
+            return 0 if (left is not None and left == right) else 1
+        val = again(r["search"])
         exp = r.get("denotation")
-        if exp is None:
-            return 0
-        return 0 if (st == "ok" and val == exp) else 1
+        print(f"expected : {exp if exp is not None else 'an OK with a SEARCH line'}")
+        if val is None:
+            return 1
+        return 0 if (exp is None or val == exp) else 1
     finally:
         w.close()
